@@ -403,7 +403,7 @@ if __name__ == '__main__':
     sys.stdout.write(generate(sys.argv[1] if len(sys.argv) > 1 else '/repo'))
 
 
-METHODS = ['_shift_settings_idx', 'ljust', 'rjust', 'center', 'assign_str',
+METHODS = ['_shift_settings_idx', 'ljust', 'rjust', 'center', 'assign_str', 'clip', dict(py='_strip', join=True), 'removeprefix', 'removesuffix',
            dict(py='insert_settings', point=True, types={'apply': 'bool', 'settings': 'slist', 'topmost': 'bool'}),
            dict(py='__next__', iter=True, lean='iterStep', after_target='settings',
                 entry=[('current_settings', 'slist'), ('settings', 'point'), ('with_assertions', 'bool')]),
@@ -442,7 +442,8 @@ def generate_methods(repo):
         mod = nm[0].upper() + nm[1:]
         L = ['/-  GENERATED by harness/translate.py (harness/pyobj.py) from the working tree of the repository — do not edit.',
              '    One method of the source, translated statement by statement. -/',
-             'import AnsiModel.Obj', 'import AnsiModel.Replay', 'import AnsiModel.Generated.Wrappers']
+             'import AnsiModel.Obj', 'import AnsiModel.Replay', 'import AnsiModel.PyStr', 'import AnsiModel.Generated.Tables',
+             'import AnsiModel.Generated.Wrappers']
         L += ['import AnsiModel.Generated.Methods.%s' % (d[0].upper() + d[1:]) for d in deps]
         L += ['', 'namespace Gen', '', text, 'end Gen', '']
         files['Methods/%s.lean' % mod] = '\n'.join(L)
